@@ -74,6 +74,8 @@ pub struct InFlight {
     pub orig: (u16, u32, &'static str),
     /// address the datagram was originally sent to (as a trace address; 0 = unknown / fabricated)
     pub odst: u32,
+    /// wire id of the datagram this is (a copy of); 0 for fabricated bytes
+    pub oid: u64,
 }
 
 pub struct Faults {
@@ -129,6 +131,8 @@ pub struct Sim<P: Protocol> {
     /// event-by-event trace for Cloud.tla (None = off)
     pub trace: Option<Vec<String>>,
     pub flush_on_drop: bool,
+    /// wire id of a payload datagram -> (source, destination) address of the frame it carries, dissected by the harness
+    pub frames: HashMap<u64, (Vec<u8>, Vec<u8>)>,
     /// public key text -> label of a key (filled by the drivers that generate keys)
     pub max_trace: usize,
 }
@@ -164,6 +168,7 @@ impl<P: Protocol> Sim<P> {
             hairpin: HashMap::new(),
             trace: None,
             flush_on_drop: false,
+            frames: HashMap::new(),
             max_trace: 400_000,
         }
     }
@@ -274,8 +279,16 @@ impl<P: Protocol> Sim<P> {
         peers.sort_by_key(|v| v["a"].as_u64());
         let mut pend: Vec<Value> = objs.iter().filter(|o| !o.1).map(|o| json!({"a": tport(&o.0), "st": o.2, "r": o.3})).collect();
         pend.sort_by_key(|v| v["a"].as_u64());
-        let mut claims: Vec<Value> = n.verif_table().verif_claims().iter().map(|(peer, range, exp)| json!({"p": tport(peer), "r": format!("{}", range), "exp": exp})).collect();
+        let mut claims: Vec<Value> = n
+            .verif_table()
+            .verif_claims()
+            .iter()
+            .map(|(peer, range, exp)| json!({"p": tport(peer), "r": format!("{}", range), "exp": exp, "rb": range.base.data[..(range.base.len as usize).min(16)].to_vec(), "rl": range.prefix_len}))
+            .collect();
         claims.sort_by_key(|v| v.to_string());
+        let mut cache: Vec<Value> =
+            n.verif_table().verif_cache().iter().map(|(a, peer, exp)| json!({"a": a.data[..(a.len as usize).min(16)].to_vec(), "p": tport(peer), "exp": exp})).collect();
+        cache.sort_by_key(|v| v.to_string());
         let mut cachep: Vec<u32> = n.verif_table().verif_cache().iter().map(|(_, peer, _)| tport(peer)).collect();
         cachep.sort();
         cachep.dedup();
@@ -284,7 +297,7 @@ impl<P: Protocol> Sim<P> {
         own.dedup();
         let (np, nr) = n.verif_timers();
         let rc: Vec<Value> = n.verif_reconnect().iter().map(|(a, tries, to, next)| json!({"a": a.iter().map(tport).collect::<Vec<_>>(), "tries": tries, "to": to, "next": next})).collect();
-        json!({"peers": peers, "pend": pend, "claims": claims, "cachep": cachep, "own": own, "np": np, "nr": nr, "rc": rc})
+        json!({"peers": peers, "pend": pend, "claims": claims, "cachep": cachep, "cache": cache, "own": own, "np": np, "nr": nr, "rc": rc})
     }
 
     fn type_name(t: u8) -> &'static str {
@@ -505,7 +518,7 @@ impl<P: Protocol> Sim<P> {
                 0
             };
             self.seq += 1;
-            self.queue.push(InFlight { due: self.now + delay, seq: self.seq, src, to, id: d.id, bytes: d.bytes.clone(), orig: (d.from, d.inc, d.tag), odst: tport(&d.to) });
+            self.queue.push(InFlight { due: self.now + delay, seq: self.seq, src, to, id: d.id, bytes: d.bytes.clone(), orig: (d.from, d.inc, d.tag), odst: tport(&d.to), oid: d.id });
         }
     }
 
@@ -514,30 +527,30 @@ impl<P: Protocol> Sim<P> {
         self.seq += 1;
         // a verbatim copy of something a node really sent keeps its origin; anything else is fabricated
         let orig = if self.trace.is_some() {
-            self.wire.iter().rev().find(|d| d.bytes == bytes).map(|d| (d.from, d.inc, d.tag, tport(&d.to))).unwrap_or((0, 0, "forged", 0))
+            self.wire.iter().rev().find(|d| d.bytes == bytes).map(|d| (d.from, d.inc, d.tag, tport(&d.to), d.id)).unwrap_or((0, 0, "forged", 0, 0))
         } else {
-            (0, 0, "forged", 0)
+            (0, 0, "forged", 0, 0)
         };
-        self.queue.push(InFlight { due, seq: self.seq, src, to: to as u16 + 1, id: 0, bytes, orig: (orig.0, orig.1, orig.2), odst: orig.3 });
+        self.queue.push(InFlight { due, seq: self.seq, src, to: to as u16 + 1, id: 0, bytes, orig: (orig.0, orig.1, orig.2), odst: orig.3, oid: orig.4 });
     }
 
     /// a verbatim copy of a datagram a node really sent (duplicating network / replay), delivered at `due` with source `src`
     pub fn inject_copy(&mut self, to: usize, src: SocketAddr, d: &Dgram, due: Time) {
         self.seq += 1;
-        self.queue.push(InFlight { due, seq: self.seq, src, to: to as u16 + 1, id: 0, bytes: d.bytes.clone(), orig: (d.from, d.inc, d.tag), odst: tport(&d.to) });
+        self.queue.push(InFlight { due, seq: self.seq, src, to: to as u16 + 1, id: 0, bytes: d.bytes.clone(), orig: (d.from, d.inc, d.tag), odst: tport(&d.to), oid: d.id });
     }
 
     /// immediate presentation of a datagram to node `to` (bypasses the queue); returns what the node did
     pub fn present(&mut self, to: usize, src: SocketAddr, bytes: &[u8]) -> CallResult {
         let orig = if self.trace.is_some() {
-            self.wire.iter().rev().find(|d| d.bytes == bytes).map(|d| (d.from, d.inc, d.tag, tport(&d.to))).unwrap_or((0, 0, "forged", 0))
+            self.wire.iter().rev().find(|d| d.bytes == bytes).map(|d| (d.from, d.inc, d.tag, tport(&d.to), d.id)).unwrap_or((0, 0, "forged", 0, 0))
         } else {
-            (0, 0, "forged", 0)
+            (0, 0, "forged", 0, 0)
         };
-        self.present_from(to, src, bytes, (orig.0, orig.1, orig.2), 0, orig.3)
+        self.present_from(to, src, bytes, (orig.0, orig.1, orig.2), 0, orig.3, orig.4)
     }
 
-    pub fn present_from(&mut self, to: usize, src: SocketAddr, bytes: &[u8], orig: (u16, u32, &'static str), id: u64, odst: u32) -> CallResult {
+    pub fn present_from(&mut self, to: usize, src: SocketAddr, bytes: &[u8], orig: (u16, u32, &'static str), id: u64, odst: u32, oid: u64) -> CallResult {
         let mut res = CallResult::default();
         let n = &mut self.nodes[to];
         if !n.node.verif_socket().put_inbound(src, bytes.to_vec()) {
@@ -551,7 +564,14 @@ impl<P: Protocol> Sim<P> {
         self.drain(to, &mut res);
         if self.trace.is_some() {
             let first = bytes.first().map(|b| *b as i64).unwrap_or(-1);
-            self.trace_call("recv", to, &res, json!({"src": port_of(&src), "first": first, "len": bytes.len(), "id": id, "orig": [orig.0, orig.1], "tag": orig.2, "odst": odst}));
+            // the addresses of the frame inside a payload datagram, as the harness knows them from the interface read
+            // that caused the datagram
+            let (fk, fsrc, fdst) = match self.frames.get(&oid) {
+                Some((a, b)) => (true, a.clone(), b.clone()),
+                None => (false, vec![], vec![]),
+            };
+            self.trace_call("recv", to, &res, json!({"src": port_of(&src), "first": first, "len": bytes.len(), "id": id, "orig": [orig.0, orig.1], "tag": orig.2, "odst": odst,
+                                                     "fk": fk, "fsrc": fsrc, "fdst": fdst}));
         }
         res
     }
@@ -596,7 +616,22 @@ impl<P: Protocol> Sim<P> {
             n.panics += 1;
         }
         self.drain(i, &mut res);
-        self.trace_call("iface", i, &res, json!({}));
+        if self.trace.is_some() {
+            let ip = std::any::type_name::<P>().contains("Packet");
+            let parsed = own_dissect(ip, frame);
+            if let Some((a, b)) = &parsed {
+                for d in &res.sent {
+                    if d.tag == "data" {
+                        self.frames.insert(d.id, (a.clone(), b.clone()));
+                    }
+                }
+            }
+            let (fk, fsrc, fdst) = match parsed {
+                Some((a, b)) => (true, a, b),
+                None => (false, vec![], vec![]),
+            };
+            self.trace_call("iface", i, &res, json!({"fk": fk, "fsrc": fsrc, "fdst": fdst}));
+        }
         res
     }
 
@@ -653,7 +688,7 @@ impl<P: Protocol> Sim<P> {
             }
             let m = self.queue.swap_remove(k);
             let info = InFlightInfo { id: m.id, src: m.src, to: m.to, len: m.bytes.len(), first: m.bytes.first().copied(), head: if m.bytes.len() >= 8 { Some(m.bytes[..8].to_vec()) } else { None } };
-            let res = self.present_from((m.to - 1) as usize, m.src, &m.bytes, m.orig, m.id, m.odst);
+            let res = self.present_from((m.to - 1) as usize, m.src, &m.bytes, m.orig, m.id, m.odst, m.oid);
             out.push((info, res));
         }
         out
@@ -816,4 +851,36 @@ pub fn ipv6_packet(src: [u8; 16], dst: [u8; 16], payload: &[u8]) -> Vec<u8> {
     p.extend_from_slice(&dst);
     p.extend_from_slice(payload);
     p
+}
+
+/// the harness's own reading of a frame / packet (independent of src/payload.rs): source and destination address in the
+/// form the routing table uses - MAC, prefixed by the 12-bit VLAN id of an 802.1Q tag unless that id is 0; IPv4 / IPv6
+/// addresses at the standard header positions
+pub fn own_dissect(ip: bool, b: &[u8]) -> Option<(Vec<u8>, Vec<u8>)> {
+    if ip {
+        match b.first().map(|v| v >> 4) {
+            Some(4) if b.len() >= 20 => Some((b[12..16].to_vec(), b[16..20].to_vec())),
+            Some(6) if b.len() >= 40 => Some((b[8..24].to_vec(), b[24..40].to_vec())),
+            _ => None,
+        }
+    } else {
+        if b.len() < 14 {
+            return None;
+        }
+        let (dst, src) = (&b[0..6], &b[6..12]);
+        if b[12] == 0x81 && b[13] == 0x00 {
+            if b.len() < 16 {
+                return None;
+            }
+            let vid = [b[14] & 0x0f, b[15]];
+            if vid != [0, 0] {
+                let mut s = vid.to_vec();
+                s.extend_from_slice(src);
+                let mut d = vid.to_vec();
+                d.extend_from_slice(dst);
+                return Some((s, d));
+            }
+        }
+        Some((src.to_vec(), dst.to_vec()))
+    }
 }
